@@ -110,3 +110,13 @@ def hexbits(t):
     b = bits_of(t).flatten().tolist()
     w = {torch.float32: 8, torch.float16: 4, torch.bfloat16: 4}.get(t.dtype, 2)
     return [format(v & ((1 << (4 * w)) - 1), f"0{w}x") for v in b]
+
+
+def poison(*nbytes):
+    """Fill and release buffers of the given sizes so that a following torch.empty() of such a size is likely to receive recognisable
+    garbage instead of zero pages or - worse - the still intact content of a just released reference result (block-wise code that
+    forgets its tail would otherwise go unnoticed by a differential oracle)."""
+    for n in nbytes:
+        for _ in range(2):
+            t = torch.full((int(n),), 0xA5, dtype=torch.uint8)
+            del t
